@@ -623,6 +623,12 @@ impl World {
     }
 }
 
+/// A distinctive 32-byte value (high byte set) for explicit block hashes, topics and txids: it can
+/// never equal a server-generated block hash (24 zero bytes + number + 1).
+pub fn bh(x: u64) -> String {
+    format!("0x9e{:062x}", x)
+}
+
 pub fn hx(b: &[u8]) -> String {
     format!("0x{}", hex::encode(b))
 }
